@@ -650,17 +650,21 @@ func (m *c12Machine) applyOne(op blockOp) error {
 // more than one provider bound.
 func apphashDependent(n *chain.Node, op blockOp) bool {
 	found := false
+	bindings := 0
 	for _, tx := range op.Txs {
 		for _, raw := range tx.Msgs {
-			if bytes.Contains(raw, []byte(`"/irismod.random.MsgRequestRandom"`)) && bytes.Contains(compactJSON(raw), []byte(`"oracle":true`)) {
+			c := compactJSON(raw)
+			if bytes.Contains(c, []byte(`"/irismod.random.MsgRequestRandom"`)) && bytes.Contains(c, []byte(`"oracle":true`)) {
 				found = true
+			}
+			if bytes.Contains(c, []byte(`"/irismod.service.MsgBindService"`)) && bytes.Contains(c, []byte(`"service_name":"`+randomtypes.ServiceName+`"`)) {
+				bindings++ // a provider bound earlier in the same block counts as well
 			}
 		}
 	}
 	if !found {
 		return false
 	}
-	bindings := 0
 	n.K.Service.IterateServiceBindings(n.Ctx(), func(b servicetypes.ServiceBinding) bool {
 		if b.ServiceName == randomtypes.ServiceName {
 			bindings++
